@@ -557,5 +557,5 @@ pub fn run(ctx: &mut Ctx) {
     preamble(ctx);
     let t = ctx.tier;
     ctx.run_enumerated::<Planted>(Planted::enumeration(t), true);
-    ctx.run_part::<Located>(t.pick(80_000, 1_500_000));
+    ctx.run_part::<Located>(t.pick(80_000, 6_000_000));
 }
